@@ -192,7 +192,7 @@ impl Gen {
     /// Modelled commands outside the original table: bit operations, GETEX, and the commands
     /// whose result is a random choice (SPOP, RANDOMKEY: the model lists every choice).
     pub fn extra_command(&mut self) -> (Value, Argv) {
-        let which = self.rng.gen_range(0..14);
+        let which = self.rng.gen_range(0..15);
         // mostly at a key that usually has the fitting type
         let k = if self.rng.gen_bool(0.6) { (if (8..=10).contains(&which) { "st" } else { ["k1", "k2", "k3"][self.rng.gen_range(0..3)] }).to_string() } else { self.key() };
         let kb = k.clone().into_bytes();
@@ -221,6 +221,14 @@ impl Gen {
             11 => {
                 let kbs: Vec<Value> = self.keys.iter().map(|x| json!([x, x.as_bytes()])).collect();
                 (json!({"op": "RANDOMKEY", "kb": kbs}), vec![b("RANDOMKEY")])
+            }
+            12 => {
+                // SORT [STORE]: at the list / set keys mostly
+                let k = if self.rng.gen_bool(0.7) { ["lst", "st", "k1"][self.rng.gen_range(0..3)].to_string() } else { k };
+                let store = if self.rng.gen_bool(0.4) { self.key() } else { String::new() };
+                let mut argv = vec![b("SORT"), k.clone().into_bytes()];
+                if !store.is_empty() { argv.push(b("STORE")); argv.push(store.clone().into_bytes()); }
+                (json!({"op": "SORT", "k": k, "store": store}), argv)
             }
             _ => {
                 // INCRBYFLOAT by a multiple of 1/4 (exact in binary), mostly at the counter key
@@ -413,6 +421,7 @@ pub fn render(c: &Value) -> Argv {
         "GETBIT" => argv = vec![b("GETBIT"), k(), b(&num("off").to_string())],
         "GETEX" => { argv = vec![b("GETEX"), k()]; match c["mode"].as_str().unwrap_or("none") { "persist" => argv.push(b("PERSIST")), "rel" => { argv.push(b("PX")); argv.push(b(&num("ms").to_string())); } _ => {} } }
         "INCRBYFLOAT" => argv = vec![b("INCRBYFLOAT"), k(), b(&quarter_str(num("q")))],
+        "SORT" => { argv = vec![b("SORT"), k()]; let d = c["store"].as_str().unwrap_or(""); if !d.is_empty() { argv.push(b("STORE")); argv.push(b(d)); } }
         "SPOP" => { argv = vec![b("SPOP"), k()]; if num("n") >= 0 { argv.push(b(&num("n").to_string())); } }
         "RANDOMKEY" => argv = vec![b("RANDOMKEY")],
         "INCRBY" => argv = vec![b("INCRBY"), k(), b(&int_of(&c["d"]))],
